@@ -34,6 +34,27 @@ package genbank
 // first line of a qualifier come back, blanks at the end or start of a
 // continuation line do not; such layouts are not part of the domain). Every
 // generated text is checked for that (c01TidyLines).
+//
+// SHORT CONTINUATION LINES OF MULTI-LINE LOCATIONS (axes and classes
+// one-/two-/three-character-location-continuation-line; c01Feat.LocCuts,
+// c01ShortLoc, c01ShortLocRec, c01InjectShortLocLines). The writer above breaks
+// a location after a comma, so each of its location lines holds whole operands
+// (five characters or more). Other writers cut the text at a column (the 58
+// characters of the location field, or fewer) wherever that falls, or put the
+// closing parenthesis on a line of its own: join(1..5,7..9 / ). A continuation
+// line then carries as little as one character in the location column. An
+// enumeration of its own (stream 13) lays join and complement(join) locations
+// out on 2..4 lines with ONE continuation line of exactly 1, 2 or 3 characters
+// - the last line of a text cut every 58 (or every 8..57) characters, the last
+// line of a comma-broken text with one more break before its last characters,
+// a middle line right behind or in front of a comma break - on the first
+// feature, on a feature without qualifiers in front of another feature, on the
+// last feature without and with qualifiers; random records of their own
+// (streams 14, 15) get their join locations laid out anew the same ways. All
+// these layouts were probed on the unchanged reader first: it joins the
+// trimmed lines, so the text comes back verbatim wherever the break falls;
+// none had to be left out. The clause is the existing one (location text
+// verbatim, every feature and qualifier after it as stated).
 
 import (
 	"bytes"
@@ -70,7 +91,12 @@ type c01Feat struct {
 	Partial    int   // 0 none, 1 "<a..b", 2 "a..>b" (single plain range only)
 	Single     bool  // single base "a"
 	BreakAfter []int // indexes of ranges after which the writer starts a new line
-	Quals      []c01Qual
+	// LocCuts, when set, replaces BreakAfter: character offsets into the
+	// location text at which the writer starts a new line (a writer that
+	// hard-wraps the text at a column, or that puts the closing parenthesis on a
+	// line of its own, breaks at places that are not the end of an operand)
+	LocCuts []int
+	Quals   []c01Qual
 }
 
 type c01Ref struct {
@@ -125,6 +151,7 @@ func c01CloneRec(r *c01Rec) c01Rec {
 	for i, x := range r.Feats {
 		x.Ranges = append([][2]int(nil), x.Ranges...)
 		x.BreakAfter = append([]int(nil), x.BreakAfter...)
+		x.LocCuts = append([]int(nil), x.LocCuts...)
 		x.Quals = append([]c01Qual(nil), x.Quals...)
 		c.Feats[i] = x
 	}
@@ -196,6 +223,18 @@ func c01LocParts(f *c01Feat) []string {
 func c01LocText(f *c01Feat) string { return strings.Join(c01LocParts(f), "") }
 
 func c01LocLines(f *c01Feat) []string {
+	if len(f.LocCuts) > 0 {
+		text := c01LocText(f)
+		var lines []string
+		at := 0
+		for _, c := range f.LocCuts {
+			if c > at && c < len(text) { // cuts that a changed text no longer has are skipped
+				lines = append(lines, text[at:c])
+				at = c
+			}
+		}
+		return append(lines, text[at:])
+	}
 	parts := c01LocParts(f)
 	brk := map[int]bool{}
 	for _, b := range f.BreakAfter {
@@ -869,6 +908,67 @@ func c01QualTidy(q *c01Qual, width int) bool {
 	return c01TidyLines(lines)
 }
 
+// c01HasShortLocLine: a continuation line of the location of f holds exactly
+// n characters.
+func c01HasShortLocLine(f *c01Feat, n int) bool {
+	if len(f.LocCuts) == 0 {
+		return false // lines of whole operands: "a..b," has five characters or more
+	}
+	for i, ln := range c01LocLines(f) {
+		if i > 0 && len(ln) == n {
+			return true
+		}
+	}
+	return false
+}
+
+// c01LongerLocLines moves the break in front of every continuation line of n
+// characters four characters to the left (or, where the line above has fewer
+// than eight characters, takes the break away).
+func c01LongerLocLines(f *c01Feat, n int) {
+	for c01HasShortLocLine(f, n) {
+		lines := c01LocLines(f)
+		var cuts []int
+		at := 0
+		for _, ln := range lines[:len(lines)-1] {
+			at += len(ln)
+			cuts = append(cuts, at)
+		}
+		for i := 1; i < len(lines); i++ {
+			if len(lines[i]) != n {
+				continue
+			}
+			if len(lines[i-1]) >= 8 {
+				cuts[i-1] -= 4
+			} else {
+				cuts = append(cuts[:i-1], cuts[i:]...)
+			}
+			break
+		}
+		f.LocCuts = cuts
+		if len(cuts) == 0 {
+			return
+		}
+	}
+}
+
+func c01ShortLocLineAxis(name string, n int) c01Axis {
+	return c01RecAxis(name,
+		func(r *c01Rec) bool {
+			for i := range r.Feats {
+				if c01HasShortLocLine(&r.Feats[i], n) {
+					return true
+				}
+			}
+			return false
+		},
+		func(r *c01Rec) {
+			for i := range r.Feats {
+				c01LongerLocLines(&r.Feats[i], n)
+			}
+		})
+}
+
 var c01DigitWord = map[int]string{1: "one", 2: "two", 3: "three", 4: "four", 5: "five", 6: "six"}
 
 // c01Axes lists the axes leaf first, containers last.
@@ -1070,6 +1170,13 @@ func c01Axes() []c01Axis {
 					q.Value = strings.TrimRight(out, " ") // a value cut inside a run of blanks does not end in one
 				})
 			}),
+		// a continuation line of a multi-line location that carries exactly one,
+		// two, three characters (neutralised by moving the break in front of it
+		// four characters to the left, so that the location keeps its text and its
+		// number of lines)
+		c01ShortLocLineAxis("one-character-location-continuation-line", 1),
+		c01ShortLocLineAxis("two-character-location-continuation-line", 2),
+		c01ShortLocLineAxis("three-character-location-continuation-line", 3),
 		c01RecAxis("multi-line-location",
 			func(r *c01Rec) bool {
 				for i := range r.Feats {
@@ -1083,6 +1190,7 @@ func c01Axes() []c01Axis {
 				for i := range r.Feats {
 					f := &r.Feats[i]
 					f.BreakAfter = nil
+					f.LocCuts = nil
 					for len(c01LocText(f)) > 58 && len(f.Ranges) > 2 {
 						f.Ranges = f.Ranges[:len(f.Ranges)-1]
 					}
@@ -2027,6 +2135,240 @@ func c01InjectBlanks(rng *rand.Rand, r *c01Rec) {
 	}
 }
 
+/******************************************************************************
+ Short continuation lines of multi-line locations
+******************************************************************************/
+
+// layouts of the short-location-line enumeration
+const (
+	c01SLWrap58     = iota // text cut every 58 characters (the width of the location field), the rest on the last line
+	c01SLWrapNarrow        // the same at a column drawn from 8..57 (a writer with a narrower field)
+	c01SLLast              // breaks after commas, and one more in front of the last characters (the closing parenthesis on a line of its own)
+	c01SLMiddle            // breaks after commas, and one more right behind or in front of one of them: a short line between two others
+)
+
+var c01ShortLocStyles = []string{"hard-wrap-at-58", "hard-wrap-at-narrower-column", "breaks-after-commas-and-before-the-last-characters", "breaks-after-commas-and-a-short-middle-line"}
+
+var c01ShortLocPlaces = []string{"first-feature-qualifiers-follow", "middle-feature-without-qualifiers", "last-feature-without-qualifiers", "last-feature-qualifiers-follow"}
+
+// c01NumOfDigits draws a number of d digits that is at most n (d <= digits of n).
+func c01NumOfDigits(rng *rand.Rand, d, n int) int {
+	lo, hi := 1, 9
+	for i := 1; i < d; i++ {
+		lo, hi = lo*10, hi*10+9
+	}
+	if hi > n {
+		hi = n
+	}
+	return lo + rng.Intn(hi-lo+1)
+}
+
+// c01JoinOfLen draws the operands a..b (1 <= a <= b <= n) of a join so that the
+// operands and the commas between them take exactly chars characters; nil when
+// no two or more operands do.
+func c01JoinOfLen(rng *rand.Rand, n, chars int) [][2]int {
+	d := len(strconv.Itoa(n))
+	// an operand with its comma has 5 .. 2d+3 characters; the last one has no comma
+	lo, hi := (chars+1+2*d+2)/(2*d+3), (chars+1)/5
+	if lo < 2 {
+		lo = 2
+	}
+	if lo > hi {
+		return nil
+	}
+	m := lo + rng.Intn(hi-lo+1)
+	lens := make([]int, m)
+	for i := range lens {
+		lens[i] = 4
+	}
+	for extra := chars - (5*m - 1); extra > 0; {
+		if i := rng.Intn(m); lens[i] < 2*d+2 {
+			lens[i]++
+			extra--
+		}
+	}
+	out := make([][2]int, m)
+	for i, l := range lens {
+		daLo, daHi := l-2-d, (l-2)/2
+		if daLo < 1 {
+			daLo = 1
+		}
+		da := daLo + rng.Intn(daHi-daLo+1)
+		a, b := c01NumOfDigits(rng, da, n), c01NumOfDigits(rng, l-2-da, n)
+		if a > b {
+			a, b = b, a
+		}
+		out[i] = [2]int{a, b}
+	}
+	return out
+}
+
+// c01CommaCuts: the offsets into the location text at which the lines of the
+// BreakAfter layout of f start.
+func c01CommaCuts(f *c01Feat) []int {
+	g := *f
+	g.LocCuts = nil
+	lines := c01LocLines(&g)
+	var cuts []int
+	at := 0
+	for _, ln := range lines[:len(lines)-1] {
+		at += len(ln)
+		cuts = append(cuts, at)
+	}
+	return cuts
+}
+
+// c01ShortLocOK: the laid-out location of f has no line over 58 characters,
+// exactly one continuation line of three characters or fewer, that one of n
+// characters, and (lines > 0) that many lines.
+func c01ShortLocOK(f *c01Feat, n, lines int) bool {
+	ls := c01LocLines(f)
+	if lines > 0 && len(ls) != lines {
+		return false
+	}
+	short := 0
+	for i, ln := range ls {
+		if len(ln) == 0 || len(ln) > 58 {
+			return false
+		}
+		if i > 0 && len(ln) <= 3 {
+			if len(ln) != n {
+				return false
+			}
+			short++
+		}
+	}
+	return short == 1 && strings.Join(ls, "") == c01LocText(f)
+}
+
+// c01ShortLoc gives f a join(...) or complement(join(...)) location over a
+// sequence of n letters, laid out in the given style on the given number of
+// lines, one continuation line of which has exactly short (1..3) characters.
+func c01ShortLoc(rng *rand.Rand, f *c01Feat, n, style, short, lines int, compl bool) {
+	for try := 0; try < 100000; try++ {
+		f.Ranges, f.Join, f.Compl, f.Partial, f.Single, f.BreakAfter, f.LocCuts = nil, true, compl, 0, false, nil, nil
+		var cuts []int
+		switch style {
+		case c01SLWrap58, c01SLWrapNarrow:
+			w := 58
+			if style == c01SLWrapNarrow {
+				w = 8 + rng.Intn(50)
+			}
+			total := (lines-1)*w + short
+			overhead := len("join()")
+			if compl {
+				overhead += len("complement()")
+			}
+			if f.Ranges = c01JoinOfLen(rng, n, total-overhead); f.Ranges == nil {
+				continue
+			}
+			for c := w; c < total; c += w {
+				cuts = append(cuts, c)
+			}
+		default:
+			if lines == 2 { // the commas' layout has one line
+				f.Ranges = [][2]int{c01RandRange(rng, n), c01RandRange(rng, n)}
+				if rng.Intn(2) == 0 {
+					f.Ranges = append(f.Ranges, c01RandRange(rng, n))
+				}
+			} else {
+				c01GenLoc(rng, f, n, lines-1, 6)
+				f.Compl = compl
+			}
+			cuts = c01CommaCuts(f)
+			if style == c01SLLast {
+				cuts = append(cuts, len(c01LocText(f))-short)
+			} else {
+				if len(cuts) == 0 {
+					continue
+				}
+				c := cuts[rng.Intn(len(cuts))]
+				if rng.Intn(2) == 0 {
+					cuts = append(cuts, c+short) // the first characters of the line below the break
+				} else {
+					cuts = append(cuts, c-short) // the last characters of the line above, comma included
+				}
+				sort.Ints(cuts)
+			}
+		}
+		f.BreakAfter, f.LocCuts = nil, cuts
+		if c01ShortLocOK(f, short, lines) {
+			return
+		}
+	}
+	panic(fmt.Sprintf("c01ShortLoc: cannot lay out style %d short %d lines %d", style, short, lines))
+}
+
+// c01ShortLocRec: a 345-letter record with three features of two qualifiers
+// each; the feature at the named place has a c01ShortLoc location: the first
+// feature (its qualifiers, two more features and ORIGIN follow the short line),
+// the second feature without qualifiers (the key line of the next feature
+// follows the location), the last feature without qualifiers (ORIGIN follows
+// the location), the last feature with its qualifiers.
+func c01ShortLocRec(rng *rand.Rand, style, short, lines int, compl bool, place int) c01Rec {
+	r := c01ShapeRec(rng, 345, 3, 2, c01VPlain, 1)
+	fi := []int{0, 1, 2, 2}[place]
+	c01ShortLoc(rng, &r.Feats[fi], 345, style, short, lines, compl)
+	if place == 1 || place == 2 {
+		r.Feats[fi].Quals = nil
+	}
+	return r
+}
+
+// c01InjectShortLocLines lays, with probability 1/2 each, the join locations of
+// r out anew, the operands as they are: cut every w characters for a column w
+// in 8..58 that leaves 1..3 characters on the last line (58 itself half of the
+// time where it does), or with one more break 1..3 characters before the end
+// of the text, or 1..3 characters behind or in front of one of its breaks. A
+// layout that would have a second line of three characters or fewer, or a
+// line over 58 characters, is left out.
+func c01InjectShortLocLines(rng *rand.Rand, r *c01Rec) {
+	for i := range r.Feats {
+		f := &r.Feats[i]
+		if !f.Join || rng.Intn(2) > 0 {
+			continue
+		}
+		total := len(c01LocText(f))
+		short := 1 + rng.Intn(3)
+		comma := c01CommaCuts(f)
+		var cuts []int
+		switch st := rng.Intn(3); {
+		case st == 0:
+			var ws []int
+			for w := 8; w <= 58; w++ {
+				if total > w && total%w == short {
+					ws = append(ws, w)
+				}
+			}
+			if len(ws) == 0 {
+				continue
+			}
+			w := ws[rng.Intn(len(ws))]
+			if ws[len(ws)-1] == 58 && rng.Intn(2) == 0 {
+				w = 58
+			}
+			for c := w; c < total; c += w {
+				cuts = append(cuts, c)
+			}
+		case st == 1 || len(comma) == 0:
+			cuts = append(comma, total-short)
+		default:
+			c := comma[rng.Intn(len(comma))]
+			if rng.Intn(2) == 0 {
+				cuts = append(comma, c+short)
+			} else {
+				cuts = append(comma, c-short)
+			}
+			sort.Ints(cuts)
+		}
+		oldBreaks := f.BreakAfter
+		f.BreakAfter, f.LocCuts = nil, cuts
+		if !c01ShortLocOK(f, short, 0) {
+			f.BreakAfter, f.LocCuts = oldBreaks, nil
+		}
+	}
+}
+
 // c01ShapeRec: the record of the exhaustive part. Every feature has the same
 // shape; content is random.
 func c01ShapeRec(rng *rand.Rand, n, nFeat, nq, vshape, locLines int) c01Rec {
@@ -2670,10 +3012,12 @@ func TestVerifC01(t *testing.T) {
 	nRandRec, nRandFile := 600, 200
 	lenReps := []int{7, 12, 345, 1234, 12345, 100000}
 	extraLens := []int{1, 9, 10, 60, 61, 99, 100, 120, 999, 1000, 9999, 10000, 99999}
-	nBlankRand := 80 // random records with runs of blanks (streams 11, 12)
+	nBlankRand := 80    // random records with runs of blanks (streams 11, 12)
+	nShortLocRand := 80 // random records with short location continuation lines (streams 14, 15)
 	if verifThorough() {
 		nRandRec, nRandFile = 30000, 8000
 		nBlankRand = 4000
+		nShortLocRand = 4000
 	}
 	prof := c01Profile{MaxMeta: 400, MaxQuals: 5, MaxLen: 100000}
 
@@ -2685,6 +3029,8 @@ func TestVerifC01(t *testing.T) {
 	randDom := fmt.Sprintf("plus %d seeded-random records: length 1..100000 (digit count uniform), locus name 1..16 lower-case characters, DNA/mRNA/tRNA/rRNA, linear/circular, 0..40 features with 0..5 qualifiers (values over printable ASCII without the double quote, single-spaced words, up to 230 characters, translations up to 260), locations a..b, complement, join, complement(join), partial, single base, join of up to 40 ranges on several lines, 0..5 references with optional TITLE/PUBMED/REMARK, COMMENT/DBLINK/PROJECT blocks, metadata texts to 400 characters, in about one record in six wrapped qualifier values, in about one record in eight values of the translation-text shape above (up to 252 characters, under any of the 14 qualifier names), in one record in five a keyword block or reference field with a continuation line whose first word is one of the keyword words above, and in one record in four a blank-free token of 21..57 characters (URL or accession list) put at a random word position into each quoted value other than /translation with probability 1/3 (where no piece of the laid-out qualifier gets longer than a line), which leaves the line above it up to 56 columns short; every 25th random record is read through Read from a temporary file; ", nRandRec)
 	shapeDom += "plus consecutive blanks (all texts above are single-spaced): a quoted /note or /product value with {1,3} runs of {2,3,6} blanks between two of its words, the first run on {the only line of a one-line value; the first, a middle, the last line of a value of three or more lines} x wrapping at {79,80} columns x {first qualifier of the first feature, last qualifier of the last feature} on a 345-letter record with two features of two qualifiers, one reference and COMMENT (class consecutive-blanks-in-value), and a paragraph of two or three lines with two runs of {2,4} blanks, the first on {its first line, a continuation line}, as the text of each of {" + strings.Join(c01BlankMetaPlaces, ", ") + "} (ORGANISM: the lineage; DBLINK: a second entry; reference fields: of the first of two references) x wrapping at {79,80} columns on a 345-letter record with two features, two complete references, DBLINK and COMMENT (class consecutive-blanks-in-meta-text); every run lies inside a laid-out line: the writer wraps at single blanks and a line break stands for exactly one blank, so a run that the wrap would fall into would leave blanks at the end of a line or the start of the next, a layout the format does not carry and the unchanged reader does not read back (it keeps blanks at the end of the first line of a qualifier and drops those at the end or start of a continuation line); such layouts are not generated; the value or text, runs included, must come back verbatim; "
 	randDom += fmt.Sprintf("plus %d seeded-random records of the same kind with lengths up to 9999 in which, with probability 1/2 each, 1..3 gaps between words of the quoted values other than /translation are widened to runs of 2..4 blanks and, with probability 1/4 each, 1..2 gaps of a paragraph of the DEFINITION, KEYWORDS, SOURCE, ORGANISM, reference and extra-keyword texts (every run inside a laid-out line, as above); ", nBlankRand)
+	shapeDom += "plus short continuation lines of multi-line locations (everywhere above a location line holds whole operands, five characters or more): a join(...) or complement(join(...)) location on {2,3,4} lines of which ONE continuation line carries exactly {1,2,3} characters in the location column, laid out as {" + strings.Join(c01ShortLocStyles, "; ") + "}: the text cut every 58 characters (the width of the location field) or every w characters for a column w drawn from 8..57, with 1, 2 or 3 characters left for the last line (a closing parenthesis alone, '))', '5))', ...; operands drawn so that the text has exactly that length); or broken after commas as above with one more break 1, 2 or 3 characters before the end of the text (join(1..5,7..9 / ) style: the closing parenthesis or parentheses on a line of their own, or with the last digit); or broken after commas with one more break 1, 2 or 3 characters behind or in front of one of these breaks, which gives a short line between two others (a lone comma, '5,', '17.', ...; 3 and 4 lines only); x {join, complement(join)} x the feature being {the first of three, its two qualifiers following the short line; the second of three and without qualifiers, the key line of the next feature following; the last and without qualifiers, ORIGIN following; the last, with its qualifiers} on a 345-letter record with three features of two qualifiers (classes one-character-location-continuation-line, two-character-location-continuation-line, three-character-location-continuation-line); every one of these layouts was probed on the unchanged reader, which reads the location text back verbatim whatever the column of the break (inside a number, between the two dots, before or after a comma or parenthesis), so none is left out; the location text must come back verbatim and every feature and qualifier after it as stated; "
+	randDom += fmt.Sprintf("plus %d seeded-random records of the same kind with lengths up to 9999 in which, with probability 1/2 each, the join locations are laid out anew, operands unchanged: cut every w characters for a column w in 8..58 that leaves 1..3 characters on the last line (58 half of the time where it does), or with one more break 1..3 characters before the end of the text, or 1..3 characters behind or in front of one of its breaks after a comma (exactly one continuation line of three characters or fewer, no line over 58 characters); ", nShortLocRand)
 	runs := []*verifRun{
 		newVerifRun("C01", "io/genbank.Parse/panic-free", dom+shapeDom+randDom+"every case counts"),
 		newVerifRun("C01", "io/genbank.Parse/post/origin", dom+shapeDom+randDom+"every case counts (length >= 1)"),
@@ -2889,6 +3235,40 @@ func TestVerifC01(t *testing.T) {
 			via = filepath.Join(rtmp, "r"+strconv.Itoa(i)+".gbk")
 		}
 		return c01EvalRecord("random#"+strconv.Itoa(i), &f, via)
+	})
+
+	// ---- single records: short continuation lines of multi-line locations --
+	// (own streams 13..15, evaluated after the cases above)
+	type sloccase struct {
+		style, short, lines, place int
+		compl                      bool
+	}
+	var sloccases []sloccase
+	for style := range c01ShortLocStyles {
+		for short := 1; short <= 3; short++ {
+			for lines := 2; lines <= 4; lines++ {
+				if style == c01SLMiddle && lines < 3 {
+					continue
+				}
+				for _, compl := range []bool{false, true} {
+					for place := range c01ShortLocPlaces {
+						sloccases = append(sloccases, sloccase{style, short, lines, place, compl})
+					}
+				}
+			}
+		}
+	}
+	c01Parallel(len(sloccases), runs, func(i int) []c01Out {
+		k := sloccases[i]
+		f := c01File{Recs: []c01Rec{c01ShortLocRec(c01Rng(13, i), k.style, k.short, k.lines, k.compl, k.place)}, FinalNL: true}
+		return c01EvalRecord(fmt.Sprintf("short-location-line characters=%d layout=%s lines=%d complement=%v place=%s", k.short, c01ShortLocStyles[k.style], k.lines, k.compl, c01ShortLocPlaces[k.place]), &f, "")
+	})
+	c01Parallel(nShortLocRand, runs, func(i int) []c01Out {
+		p := prof
+		p.MaxLen = 9999
+		f := c01File{Recs: []c01Rec{c01RandRec(c01Rng(14, i), p)}, FinalNL: i%2 == 0}
+		c01InjectShortLocLines(c01Rng(15, i), &f.Recs[0])
+		return c01EvalRecord("random-with-short-location-lines#"+strconv.Itoa(i), &f, "")
 	})
 
 	// ---- files -----------------------------------------------------------
